@@ -57,6 +57,9 @@ class Datagroup:
         for key, value in self.items():
             if type(value) is not type(other[key]):
                 return False
+            if np.prod(value.shape) != np.prod(other[key].shape):
+                # Broadcasting is no element-wise correspondence
+                return False
             try:
                 equal = value == other[key]
             except (ValueError, DimensionalityError):
